@@ -5,6 +5,7 @@ from . import readers as R
 from .c03 import READ_CAND, AGENT
 
 EXPLANATION = (
+    "[Method] Maybe<Candidate>::read_xml is explored path by path (one iteration of the attribute scan and of each element loop per path); the rules read off what each path assumed (attribute namespace / name / value comparisons, loop-carried flags) and did (returns, assignments, calls). "
     "C16/R1 order independence of the attribute scan in Maybe<Candidate>::read_xml: the jcmd:active=\"false\" arm returns Maybe(None) at "
     "once and never reads the expression seen so far; the jcmd:comment arm only assigns it and never returns; no arm guard reads a "
     "loop-carried local; duplicate attributes are tolerated (with_checks(false)) and attributes are namespace-resolved against the JCMD "
